@@ -345,13 +345,13 @@ theorem good_evictFront {s : State} (hg : Good s) : Good (evictFront s) := by
 theorem hWrite_st (s : State) (h : Handle) (p : Bytes) :
     (hWrite s h p).1 = match hBlob s h with
       | none => s
-      | some b => setData s h.key b (writeAt b.data p h.off true) := by
+      | some b => setData s h.key b (writeAt b.data p h.off) := by
   unfold hWrite; split <;> simp_all
 
 theorem hWriteAt_st (s : State) (h : Handle) (p : Bytes) (off : Int) :
     (hWriteAt s h p off).1 = if off < 0 then s else match hBlob s h with
       | none => s
-      | some b => setData s h.key b (writeAt b.data p off.toNat true) := by
+      | some b => setData s h.key b (writeAt b.data p off.toNat) := by
   unfold hWriteAt
   split
   · rfl
